@@ -541,3 +541,61 @@ func (r *Run) pointee(v *Val) *Val {
 	}
 	return v
 }
+
+// rulesConfigCoverage: list-valued constants of the circuit description are consumed for every index 0..n-1
+// (a coset shift or gate that is skipped can be changed in the description without affecting the verdict).
+func rulesConfigCoverage(cx *Ctx, prop string) []Obligation {
+	r := cx.verify()
+	if r == nil {
+		return nil
+	}
+	var obs []Obligation
+	type want struct {
+		key, desc, pat, boundSuffix string
+	}
+	for _, w := range []want{
+		{prop + "/config-coverage/coset-shifts", "every coset shift k_i of the circuit description (i = 0 … NumRoutedWires−1) is consumed on every path: the loop that multiplies ζ by k_i starts at 0, steps by 1, has no other exit and is bounded by Config.NumRoutedWires", `R\.[A-Za-z]+\.commonDataKIs\[iv(\d+)\]`, ".Config.NumRoutedWires"},
+		{prop + "/config-coverage/gates", "every gate of the circuit description is evaluated (full-range loop over the gate list), together with its own selector index", `R\.[A-Za-z.]+\.gates\[iv(\d+)\]`, ""},
+	} {
+		re := regexp.MustCompile("^" + w.pat + "$")
+		found := false
+		why := "no use of the list inside a loop found on the paths from Verify"
+		for _, rec := range r.Recs {
+			if rec.Kind != "call" {
+				continue
+			}
+			for _, a := range rec.Args {
+				p, okk := a.Definite()
+				if !okk {
+					continue
+				}
+				m := re.FindStringSubmatch(p)
+				if m == nil {
+					continue
+				}
+				id := atoi(m[1])
+				ld := r.In.Loops[id]
+				site := r.site(rec)
+				switch {
+				case !rec.Must || !hasInt(rec.Loops, id):
+					why = site + ": the use is conditional or outside its loop"
+				case !ld.S.Counted || !ld.S.SingleExit || ld.S.Step != 1 || ld.S.StartConst == nil || *ld.S.StartConst != 0 || ld.S.Op != token.LSS:
+					why = site + ": the loop at " + ld.FnPos + " does not visit indices 0,1,…,n−1 (start, step, bound test or early exit)"
+				case w.boundSuffix != "" && !strings.HasSuffix(symOrLen(ld.Bound), w.boundSuffix):
+					why = site + ": the loop is bounded by " + boundStr(ld.Bound) + ", not by " + w.boundSuffix
+				case w.boundSuffix == "" && !(len(ld.Bound.LenOf) == 1 && ld.Bound.LenOf[0] == p[:strings.LastIndex(p, "[iv")]):
+					why = site + ": the loop is not bounded by the length of the list itself"
+				default:
+					if !found {
+						obs = append(obs, good(w.key, w.desc, site))
+					}
+					found = true
+				}
+			}
+		}
+		if !found {
+			obs = append(obs, bad(w.key, w.desc, why))
+		}
+	}
+	return obs
+}
